@@ -1,6 +1,7 @@
 import SctpVerif.Driver.Rq
 import SctpVerif.Driver.GenX
 import SctpVerif.Driver.PendQ
+import SctpVerif.Driver.RingQ
 /-!
 Driver: replays implementation logs (`<comp> <opâ€¦> -> <impl result>`) through the L0 models and
 evaluates the executable property predicates on the implementation's results.
@@ -19,6 +20,7 @@ structure Counters where
 structure All where
   rq : Rq.St := {}
   pend : Pend.St := {}
+  ringq : RingQ.St := {}
   desync : List String := []
   cnt : Counters := {}
 
@@ -33,6 +35,7 @@ def stepComp (a : All) (comp : String) (op impl : List String) : All Ã— String Ã
   match comp with
   | "rq" => let (s, r, e) := Rq.step a.rq op impl; ({ a with rq := s }, r, e)
   | "pend" => let (s, r, e) := Pend.step a.pend op impl; ({ a with pend := s }, r, e)
+  | "ringq" => let (s, r, e) := RingQ.step a.ringq op impl; ({ a with ringq := s }, r, e)
   | "gen" => (a, GenX.step op, GenX.pred op impl)
   | _ => (a, "unknown-component", none)
 
